@@ -31,10 +31,11 @@ HARNESSES = [
       bounds='two-branch trees (trunk, branch a, branch b) of sizes (5,4,3) (1,3,3) (6,5,0) (2,1,8) (3,0,4), thorough up to 24 blocks; every pair of blocks and every (block, height) pair enumerated; chain index height symbolic', timeout=900),
     H('locator', 'c54_nav.cpp', 'h_locator', link=NLINK, functions=FN, variants=[{'LN': 24}], tvariants=[{'LN': 40}, {'LN': 100}], unwind=100000, unwindset=lambda v: us(v['LN'] + 2),
       bounds='chains of 24 blocks (thorough 40, 100), every start block', timeout=300),
-    H('blockproof', 'c54_work.cpp', 'h_blockproof', link=NLINK, functions=FN, unwind=300, tier='thorough',
-      variants=[{'EXP': e} for e in (0, 1, 3, 4, 0x10, 0x17, 0x18, 0x19, 0x1a, 0x1b, 0x1c, 0x1d, 0x1e, 0x1f, 0x20, 0x21, 0x22, 0x23, 0x24, 0xff)],
+    H('blockproof', 'c54_work.cpp', 'h_blockproof', link=NLINK, functions=FN, unwind=300,
+      variants=[{'EXP': e} for e in (0x1d, 0x21, 0x22, 0x23)],    # quick: a mainnet-like exponent and the three exponents around the 256-bit overflow boundary (partial overflow: low mantissa bits survive)
+      tvariants=[{'EXP': e} for e in (0, 1, 3, 4, 0x10, 0x17, 0x18, 0x19, 0x1a, 0x1b, 0x1c, 0x1d, 0x1e, 0x1f, 0x20, 0x21, 0x22, 0x23, 0x24, 0xff)],
       stubs=['base_uint<256>::operator/= replaced in harness blockproof by schoolbook long division (= floor(a/b), re-checked against q*b <= a < (q+1)*b on every native run); the real bit-serial operator is exercised by blockproof_real (short quotients) and C07 division'],
-      bounds='thorough tier: every nBits with compact exponent 0,1,3,4,0x10,0x17..0x24,0xff; mantissa and sign bit symbolic', timeout=900),
+      bounds='every nBits with compact exponent 0x1d,0x21,0x22,0x23 (thorough: 0,1,3,4,0x10,0x17..0x24,0xff); mantissa and sign bit symbolic', timeout=900),
     H('blockproof_real', 'c54_work.cpp', 'h_blockproof', link=NLINK, functions=FN, unwind=300, defines={'REAL_DIV': 1, 'CANONICAL': 1}, ubsan=False,
       variants=[{'EXP': 0x20}], tvariants=[{'EXP': 0x20}, {'EXP': 0x21}],
       unwindset='_ZN9base_uintILj256EEdVERKS0_.10:14,_ZN9base_uintILj256EEdVERKS0_.9:14',
